@@ -29,6 +29,7 @@ type Value struct {
 	list []*Value
 	data []byte
 	tag  byte // nbt.Tag*
+	elem byte // element tag of a decoded list (only needed while the list is empty)
 }
 
 func NewBoolean(v bool) *Value {
